@@ -18,7 +18,7 @@ import (
 
 func TestMain(m *testing.M) { kit.Main(m) }
 
-const rule = "(a) state machine on the real SingletonComponentRegistry: create / nested create (depth<=4, 4 names) / lookups with and without early references / in-creation polls / failing early factories / failing creations / lookups after failures, invariants after every operation; (b) the same invariants over call histories recorded from real starts with injected callback faults, plus GetComponentByName after the failure; non-trivial = history has a nested creation with an early lookup of an enclosing name, or a failure followed by a lookup; distinct by operation history"
+const rule = "(a) state machine on the real SingletonComponentRegistry: create / nested create (depth<=4, 4 names) / lookups with and without early references / in-creation polls / failing early factories / failing creations / lookups after failures, invariants after every operation; (b) the same invariants over call histories recorded from real starts with injected callback faults, plus GetComponentByName after the failure; non-trivial = history has a nested creation with an early lookup of an enclosing name, or a failure followed by a lookup; distinct by operation history; since round 7 also repeated bulk lookups (GetComponents) after real starts: only published instances come back"
 
 var errBoom = errors.New("boom")
 
